@@ -555,6 +555,8 @@ def container_method(eng, st, recv, name, pos, kw):
         if name == "__contains__":
             return contains(eng, st, recv, pos[0])
     if recv.kind == "set":
+        if rec.get("readonly") and name in ("add", "update", "discard", "remove", "clear", "pop"):
+            raise Unsupported("mutation of a set-valued heap field through its snapshot")
         if rec.get("lazy") and name in ("add", "update"):
             kk = value_kind(pos[0])
             if kk is None:
